@@ -10,6 +10,7 @@ import (
 	"syscall"
 	"time"
 
+	"verif/sim/vsched"
 	"verif/sim/vsys"
 )
 
@@ -22,14 +23,37 @@ type base struct {
 	closed bool
 }
 
-func (c *base) Read(b []byte) (int, error)         { return 0, errNotSupported }
-func (c *base) Write(b []byte) (int, error)        { return 0, errNotSupported }
-func (c *base) LocalAddr() net.Addr                { return c.Local }
-func (c *base) RemoteAddr() net.Addr               { return c.Remote }
-func (c *base) SetDeadline(t time.Time) error      { return nil }
-func (c *base) SetReadDeadline(t time.Time) error  { return nil }
-func (c *base) SetWriteDeadline(t time.Time) error { return nil }
+func (c *base) Read(b []byte) (int, error) {
+	defer vsched.Restore(vsched.EnterHarness())
+	return 0, errNotSupported
+}
+func (c *base) Write(b []byte) (int, error) {
+	defer vsched.Restore(vsched.EnterHarness())
+	return 0, errNotSupported
+}
+func (c *base) LocalAddr() net.Addr {
+	defer vsched.Restore(vsched.EnterHarness())
+	return c.Local
+}
+func (c *base) RemoteAddr() net.Addr {
+	defer vsched.Restore(vsched.EnterHarness())
+	return c.Remote
+}
+func (c *base) SetDeadline(t time.Time) error {
+	defer vsched.Restore(vsched.EnterHarness())
+	return nil
+}
+func (c *base) SetReadDeadline(t time.Time) error {
+	defer vsched.Restore(vsched.EnterHarness())
+	return nil
+}
+func (c *base) SetWriteDeadline(t time.Time) error {
+	defer vsched.Restore(vsched.EnterHarness())
+	return nil
+}
 func (c *base) Close() error {
+	defer vsched.Restore(vsched.EnterHarness())
+
 	if c.closed {
 		return net.ErrClosed
 	}
@@ -40,6 +64,8 @@ func (c *base) Close() error {
 	return nil
 }
 func (c *base) SyscallConn() (syscall.RawConn, error) {
+	defer vsched.Restore(vsched.EnterHarness())
+
 	if c.closed {
 		return nil, net.ErrClosed
 	}
@@ -49,14 +75,22 @@ func (c *base) SyscallConn() (syscall.RawConn, error) {
 type rawConn struct{ c *base }
 
 func (r rawConn) Control(f func(fd uintptr)) error {
+	defer vsched.Restore(vsched.EnterHarness())
+
 	if r.c.closed {
 		return net.ErrClosed
 	}
 	f(uintptr(r.c.FD))
 	return nil
 }
-func (r rawConn) Read(f func(fd uintptr) (done bool)) error  { return errNotSupported }
-func (r rawConn) Write(f func(fd uintptr) (done bool)) error { return errNotSupported }
+func (r rawConn) Read(f func(fd uintptr) (done bool)) error {
+	defer vsched.Restore(vsched.EnterHarness())
+	return errNotSupported
+}
+func (r rawConn) Write(f func(fd uintptr) (done bool)) error {
+	defer vsched.Restore(vsched.EnterHarness())
+	return errNotSupported
+}
 
 // TCPConn, UnixConn and UDPConn replace the net types of the same name inside
 // package gnet (type switches and assertions keep working).
@@ -65,12 +99,18 @@ type UnixConn struct{ base }
 type UDPConn struct{ base }
 
 func NewTCPConn(fd int, local, remote net.Addr) *TCPConn {
+	defer vsched.Restore(vsched.EnterHarness())
+
 	return &TCPConn{base{FD: fd, Local: local, Remote: remote}}
 }
 func NewUnixConn(fd int, local, remote net.Addr) *UnixConn {
+	defer vsched.Restore(vsched.EnterHarness())
+
 	return &UnixConn{base{FD: fd, Local: local, Remote: remote}}
 }
 func NewUDPConn(fd int, local, remote net.Addr) *UDPConn {
+	defer vsched.Restore(vsched.EnterHarness())
+
 	return &UDPConn{base{FD: fd, Local: local, Remote: remote}}
 }
 
@@ -78,6 +118,8 @@ func NewUDPConn(fd int, local, remote net.Addr) *UDPConn {
 var DialHook func(network, address string) (net.Conn, error)
 
 func Dial(network, address string) (net.Conn, error) {
+	defer vsched.Restore(vsched.EnterHarness())
+
 	if DialHook == nil {
 		return nil, errors.New("vnet: no dial hook installed")
 	}
@@ -85,6 +127,8 @@ func Dial(network, address string) (net.Conn, error) {
 }
 
 func InterfaceByName(name string) (*net.Interface, error) {
+	defer vsched.Restore(vsched.EnterHarness())
+
 	if k := vsys.Active(); k != nil {
 		if i, ok := k.InterfaceByName(name); ok {
 			return &net.Interface{Index: i.Index, Name: strings.Clone(i.Name)}, nil
@@ -95,6 +139,8 @@ func InterfaceByName(name string) (*net.Interface, error) {
 }
 
 func InterfaceByIndex(index int) (*net.Interface, error) {
+	defer vsched.Restore(vsched.EnterHarness())
+
 	if k := vsys.Active(); k != nil {
 		if i, ok := k.InterfaceByIndex(index); ok {
 			return &net.Interface{Index: i.Index, Name: strings.Clone(i.Name)}, nil
